@@ -3,7 +3,7 @@
 //! state; after every transition the real state (bindings, quote flag, all stacks)
 //! must equal the reference interpreter's.
 
-use crate::core::{panic_class, step_once, Ctx, Outcome, Real, Verdict};
+use crate::core::{live_history, panic_class, step_once, Ctx, LiveStep, Outcome, Real, Verdict};
 use crate::model::{Comp, Tree, M};
 use crate::refmodel::ref_step;
 use std::collections::{HashSet, VecDeque};
@@ -135,6 +135,20 @@ fn bfs(ctx: &mut Ctx, real: &mut Real, label: &str, acts: &[Act], depth_max: usi
                     ctx.nontrivial_mark(&format!("{:?}|{}", act, okey));
                 }
             }
+            // the same history on ONE live state object (built once, never rebuilt): must arrive at the same state
+            let verdict = match (&verdict, &out) {
+                (Verdict::Pass, Outcome::Ok(g)) => {
+                    let mut steps: Vec<LiveStep> = hist.iter().map(|i| acts[*i].clone()).chain(std::iter::once(act.clone())).map(|a| LiveStep { pre: Box::new(|_| {}), push: match a { Act::Tok(t) => Some(t), Act::Step => None } }).collect();
+                    let live = live_history(real, &M::default(), &steps);
+                    steps.clear();
+                    match live {
+                        Outcome::Ok(l) if l.key() == g.key() => Verdict::Pass,
+                        Outcome::Ok(l) => Verdict::fail(label, "live-history-differs", format!("executed on one live state the history ends in {{{}}}, step by step from rebuilt states in {{{}}}", l.key(), g.key())),
+                        Outcome::Panic(p) => Verdict::fail(label, &panic_class(&p), format!("live history: {}", p)),
+                    }
+                }
+                _ => verdict,
+            };
             let names: Vec<String> = hist.iter().map(|i| render(&acts[*i])).collect();
             ctx.record_if(rec, id, &okey, verdict, || format!("{} history=[{}] then {}", label, names.join(" ; "), render(act)));
             if let Outcome::Ok(g) = out {
